@@ -416,8 +416,12 @@ class Ops:
         """element-wise sufficient condition for equality of two sums over
         the same range; Unsupported if it cannot be established (never
         returns False: a failed sufficient check is *undecided*)."""
+        if isinstance(a, SumV) and _is_scalar(b):
+            b = SumV(a.n, lambda i: (1 if a.kind == 'prod' else 0), b, a.kind)
+        elif isinstance(b, SumV) and _is_scalar(a):
+            a = SumV(b.n, lambda i: (1 if b.kind == 'prod' else 0), a, b.kind)
         if not (isinstance(a, SumV) and isinstance(b, SumV)):
-            raise Unsupported('SumV == scalar')
+            raise Unsupported('SumV == non-scalar')
         if a.kind != b.kind:
             raise Unsupported('sum == prod')
         if not self.ctx.goal_mode:
